@@ -1,12 +1,12 @@
 #!/usr/bin/env python3
-"""run_seeds.py [--only id] : apply each /verif/seeded/<id>/patch.diff to a scratch copy of /repo and run the
+"""run_seeds.py [--only id[,id..]] [--props a,b] : apply each /verif/seeded/<id>/patch.diff to a scratch copy of /repo and run the
 property's check (and optionally others) against it; records which checks fire in meta.json."""
 import json, os, shutil, subprocess, sys, tempfile
 VERIF = "/verif"
 only = sys.argv[sys.argv.index("--only") + 1] if "--only" in sys.argv else None
 extra = sys.argv[sys.argv.index("--props") + 1].split(",") if "--props" in sys.argv else []
 for sid in sorted(os.listdir(os.path.join(VERIF, "seeded"))):
-    if only and only not in sid:
+    if not sid.startswith("seed-") or (only and not any(o in sid for o in only.split(","))):
         continue
     d = os.path.join(VERIF, "seeded", sid)
     meta = json.load(open(os.path.join(d, "meta.json")))
